@@ -772,6 +772,70 @@ def judge_queries(body, nvars, a):
     return bad
 
 
+def judge_queries_wide(body, nvars, a):
+    """judge for diagrams over too many variables for truth tables: everything is recomputed from the implementation's own
+    node table with exact integers (a reduced ordered diagram depends on exactly the variables of its reachable nodes;
+    the fraction of satisfying assignments of a node is the mean of the fractions of its children)"""
+    from fractions import Fraction
+    bad = []
+    regs, table = {}, None
+    for l in a:
+        w = l.split(" ", 1)
+        if w[0].startswith("r") and w[0][1:].isdigit():
+            regs[int(w[0][1:])] = int(w[1])
+        elif w[0] == "table":
+            table = oracle.parse_table(w[1])
+    if table is None:
+        return [("no-table", "no table printed")]
+    frac = {0: Fraction(0), 1: Fraction(1)}
+    sup = {0: frozenset(), 1: frozenset()}
+    def walk(h):
+        if h not in frac:
+            v, lo, hi = table[h]
+            walk(lo); walk(hi)
+            frac[h] = (frac[lo] + frac[hi]) / 2
+            sup[h] = sup[lo] | sup[hi] | {v}
+    memo = {}
+    answers = {}
+    for l in a:
+        w = l.split(" ", 1)
+        if w[0].startswith("q"):
+            answers[w[0]] = w[1]
+    qi = 0
+    for line in body:
+        w = line.split()
+        if w[0] != "q":
+            continue
+        ans = answers.get("q%d" % qi)
+        qi += 1
+        if ans is None:
+            bad.append(("missing", "no answer to %s" % line))
+            continue
+        aw = ans.split()
+        if w[1] == "reimport":
+            if "nodes_equal=1" not in ans:
+                bad.append(("reimport", "re-importing the exported store (%s) does not reproduce the node table" % w[2]))
+            continue
+        h = regs[int(w[2])]
+        walk(h)
+        if w[1] == "paths":
+            pb, pt, d = table_paths(table, h, memo)
+            if (int(aw[1]), int(aw[2])) != (pb, pt):
+                bad.append(("paths", "paths of handle %d: got %s/%s, the table has %d/%d" % (h, aw[1], aw[2], pb, pt)))
+        elif w[1] == "models":
+            cm, m = int(aw[1]), int(aw[2])
+            if cm + m == 0 or Fraction(m, cm + m) != frac[h]:
+                bad.append(("models", "model counts of handle %d: got cm=%d m=%d, the fraction of satisfying assignments is %s" % (h, cm, m, frac[h])))
+        elif w[1] == "depth":
+            if int(aw[1]) != table_paths(table, h, memo)[2]:
+                bad.append(("depth", "depth of handle %d: got %s, longest path %d" % (h, aw[1], table_paths(table, h, memo)[2])))
+        elif w[1] == "deps":
+            got = [int(x) for x in aw[1].split(",")] if len(aw) > 1 and aw[1] else []
+            if got != sorted(sup[h]):
+                bad.append(("deps", "dependencies of handle %d: got %s, the diagram tests %s" % (h, got, sorted(sup[h]))))
+    return bad
+
+
 def leaf_case(cf):
     body = []
     vals = [0, 1, 2, 3, 7, 100]
@@ -847,6 +911,11 @@ def check_C13(ck, res, replay):
             nv = 4 + rng.below(4)
             kind, body = gen.gen_prog_sparse(rng, nv, queries=True)
             cf.add(kind, body, prefix="s", meta={"nvars": nv})
+        # wide diagrams (21..62 variables, children of very different depth): counts judged from the node table with exact integers
+        for i in range(60 if res.tier == "quick" else 1500):
+            nv = 21 + rng.below(42)
+            kind, body = gen.gen_prog_wide(rng, nv)
+            cf.add(kind, body, prefix="w", meta={"nvars": nv, "special": "wide"})
     impl, model = correspond(ck, res, cf, hbin, "C13")
     nontriv = set()
     mism = 0
@@ -865,8 +934,8 @@ def check_C13(ck, res, replay):
             if a is None or any(l.startswith("PANIC") for l in a):
                 res.violations.append({"key": "prog:panic", "what": "implementation panicked", "kind": kind, "body": body, "nvars": meta["nvars"], "observed": a})
                 continue
-            for key, what in judge_queries(body, meta["nvars"], a):
-                res.violations.append({"key": "query:" + key, "what": what, "kind": kind, "body": body, "nvars": meta["nvars"], "observed": a})
+            for key, what in (judge_queries_wide if meta.get("special") == "wide" else judge_queries)(body, meta["nvars"], a):
+                res.violations.append({"key": "query:" + key + (":wide" if meta.get("special") == "wide" else ""), "what": what, "kind": kind, "body": body, "nvars": meta["nvars"], "observed": a})
             if sum(1 for l in body if l.startswith("q")) >= 4:
                 nontriv.add(tuple(body))
         if a != b:
@@ -887,6 +956,10 @@ def check_C13(ck, res, replay):
                     a_ = rng2.below(nreg)
                     body.append("q " + rng2.pick(["paths %d 1" % a_, "paths %d 0" % a_, "models %d 1" % a_, "models %d 0" % a_, "depth %d" % a_, "deps %d" % a_]))
                 cf2.add(kind, body, meta={"nvars": nv})
+            for i in range(30 if res.tier == "quick" else 600):
+                nv = 21 + rng2.below(42)
+                kind, body = gen.gen_prog_wide(rng2, nv, cfg=cfg, memo=True)
+                cf2.add(kind, body, prefix="w", meta={"nvars": nv, "special": "wide"})
             impl2, model2 = correspond(ck, res, cf2, variants.get(tag), "C13." + tag)
             extra_eval += len(cf2.meta)
             for cid, (kind, body, meta) in cf2.meta.items():
@@ -894,7 +967,7 @@ def check_C13(ck, res, replay):
                 if a is None or any(l.startswith("PANIC") for l in a):
                     res.violations.append({"key": "prog:panic:" + tag, "what": "implementation panicked (feature set %s)" % tag, "kind": kind, "body": body, "nvars": meta["nvars"], "observed": a})
                     continue
-                for key, what in judge_queries(body, meta["nvars"], a):
+                for key, what in (judge_queries_wide if meta.get("special") == "wide" else judge_queries)(body, meta["nvars"], a):
                     res.violations.append({"key": "query:%s:%s" % (key, tag), "what": what + " (feature set %s)" % tag, "kind": kind, "body": body, "nvars": meta["nvars"], "observed": a})
                 if a != b:
                     mism += 1
@@ -1174,13 +1247,21 @@ def run_adf_check(ck, res, replay, pid, queries_of, n_quick, n_thorough, nmax_q=
 ALL_BACKENDS = ("native", "bio", "hyb0", "hyb1")
 
 
+def via_import(rng, b, qs):
+    """the semantics are also asked of an object that came through an export / import (serde + fix_import, or the node
+    list + ordering + roots of the web service): a less common way to obtain an Adf, same answers required"""
+    if b in ("native", "hyb0", "hyb1", "hybrew") and rng.chance(1, 6):
+        return [["roundtrip", rng.pick(["json", "nodes"])]] + qs
+    return qs
+
+
 def check_C01(ck, res, replay):
-    run_adf_check(ck, res, replay, "C01", lambda rng, b: [["grounded"]], 2000, 40000, nmax_q=8, nmax_t=10, backends=ALL_BACKENDS)
+    run_adf_check(ck, res, replay, "C01", lambda rng, b: via_import(rng, b, [["grounded"]]), 2000, 40000, nmax_q=8, nmax_t=10, backends=ALL_BACKENDS)
     return ck.finish(res, level_of(res.pid), ASSUME_COMMON + ASSUME_BIO)
 
 
 def check_C02(ck, res, replay):
-    run_adf_check(ck, res, replay, "C02", lambda rng, b: [["grounded"], ["complete"]], 1000, 16000, nmax_q=7, nmax_t=9, backends=ALL_BACKENDS)
+    run_adf_check(ck, res, replay, "C02", lambda rng, b: via_import(rng, b, [["grounded"], ["complete"]]), 1000, 16000, nmax_q=7, nmax_t=9, backends=ALL_BACKENDS)
     return ck.finish(res, level_of(res.pid), ASSUME_COMMON + ASSUME_BIO)
 
 
@@ -1193,7 +1274,7 @@ def c03_queries(rng, b):
 
 
 def check_C03(ck, res, replay):
-    run_adf_check(ck, res, replay, "C03", c03_queries, 1400, 28000, nmax_q=8, nmax_t=10,
+    run_adf_check(ck, res, replay, "C03", lambda rng, b: via_import(rng, b, c03_queries(rng, b)), 1400, 28000, nmax_q=8, nmax_t=10,
                   backends=("native", "bio", "biorew", "hyb0", "hyb1", "hybrew"))
     return ck.finish(res, level_of(res.pid), ASSUME_COMMON + ASSUME_BIO)
 
@@ -2441,6 +2522,20 @@ def check_C16(ck, res, replay):
                         if rng.chance(1, 6):
                             run.do(cl, ("solve", name, st_))       # already solved: conflict
                     run.do(cl, ("get", name))
+                    if rng.chance(1, 3):
+                        # the name is used again: the problem is deleted and another code is added under the same name, then solved;
+                        # nothing computed for the deleted problem may show up in the new one
+                        text2, _n2 = gen.gen_adf(rng, nmax=4, depth=3, style=0)
+                        if rng.chance(1, 3):
+                            text2 = rng.pick(["s(a).ac(a,c(f)).", "s(a).ac(a,c(v)).", "s(a).s(b).ac(a,neg(b)).ac(b,neg(a)).", "s(b).s(a).ac(a,a).ac(b,neg(a))."])
+                        run.do(cl, ("delete", name))
+                        run.do(cl, ("get", name))
+                        texts[name] = text2
+                        run.do(cl, ("add", name, text2, rng.pick(["Naive", "Hybrid"])))
+                        run.do(cl, ("get", name))
+                        for st_ in rng.shuffle(STRATS)[: 2 + rng.below(3)]:
+                            run.do(cl, ("solve", name, st_))
+                        run.do(cl, ("get", name))
                 if rng.chance(1, 3):
                     # the account is renamed (a temporary user claims a name): every problem must follow its owner
                     user = user + "r%d" % rng.below(10)
@@ -2472,16 +2567,20 @@ def check_C16(ck, res, replay):
                                    json.dumps({"events": run.model_lines, "first_differences": d, "lengths": [len(run.obs), len(m)]})[:3000]))
         # judge the real server's final documents against the definitions
         owned = {}
+        cur_text = {}
         for k, req, st, body in run.raw:
             if req[0] == "add" and st == 200:
                 owned.setdefault(k, set()).add(req[1])
+                cur_text[req[1]] = req[2]
             if req[0] == "delete" and st == 200:
                 owned.get(k, set()).discard(req[1])
             if req[0] == "get" and st == 404 and req[1] in owned.get(k, set()):
                 res.violations.append({"key": "server:problem-lost", "what": "GET of a problem the client added (and did not delete) answers 404: the stored answers are never returned", "events": run.model_lines[-30:], "problem": req[1]})
             if req[0] == "get" and st == 200:
                 j = json.loads(body)
-                text = texts[j["name"]]
+                text = cur_text.get(j["name"], texts[j["name"]])
+                if j.get("code") != text:
+                    res.violations.append({"key": "server:wrong-code", "what": "the code shown for a problem is not the code most recently submitted under that name", "events": run.model_lines[-30:], "text": text, "shown": j.get("code")})
                 g = py_grammar(text)
                 a = j["acs_per_strategy"]
                 declared_ok = well_declared(text)
@@ -2523,7 +2622,10 @@ def check_C16(ck, res, replay):
                 names, conds = oracle.parse_adf_text(text)
                 for sk in ["parse_only"] + list(STRAT_KEY.values()):
                     if sk == "parse_only" or True:
-                        c = graph_faithful(doc, sk, names, conds) if doc["acs_per_strategy"][sk]["type"] == "Some" else None
+                        try:
+                            c = graph_faithful(doc, sk, names, conds) if doc["acs_per_strategy"][sk]["type"] == "Some" else None
+                        except (IndexError, KeyError, ValueError, TypeError) as e:
+                            c = "the stored graph / models do not fit the problem's statements (%s: %s)" % (type(e).__name__, e)
                         if c:
                             res.violations.append({"key": "server:graph:" + sk, "what": c, "events": run.model_lines, "text": text})
     res.cov["evaluations"] = sum(len(r.obs) for _, r, _ in runs)
@@ -2644,6 +2746,10 @@ def check_C17(ck, res, replay):
                     elif k < 41:
                         newname = names[c] + "r" if rng.chance(1, 2) else names[c]
                         newpw = rng.pick(["n%s", " n%s ", "n%s "]) % pw[c].strip() if rng.chance(1, 2) else pw[c]
+                        if rng.chance(1, 4):
+                            # a name that somebody else may hold already (refused then: nothing about the account may change)
+                            newname = names[rng.pick([x for x in cl if x != c])]
+                            newpw = "n" + pw[c].strip()
                         req = ("update", newname, newpw)
                     elif k < 44:
                         req = ("delacc",)
@@ -2673,6 +2779,11 @@ def check_C17(ck, res, replay):
                     if req[0] == "update" and st == 200:
                         names[c], pw[c] = req[1], req[2]
                         exists[c] = True
+                    if req[0] == "update" and st != 200:
+                        kq_, rq_, before_, after_ = run.snapshots[-1]
+                        canon_u = lambda docs: sorted(json.dumps(d, sort_keys=True, default=repr) for d in docs["users"])
+                        if canon_u(before_) != canon_u(after_):
+                            res.violations.append({"key": "credentials:refused-update-changes-account", "what": "an update request that was refused (%s) changed a stored account (name or credential)" % st, "events": list(run.model_lines)})
                     # direct judgements on the real server's behaviour
                     if st == 200 and req[0] in ("get", "list"):
                         for other in cl:
@@ -2754,6 +2865,38 @@ def check_C17(ck, res, replay):
                                        "what": "a browser still holding the cookie of a deleted account reads (and can delete) the problems of the user who registered that name afterwards",
                                        "events": run.model_lines[-14:], "observed": body[:200]})
             run.do(b2, ("delete", "mine"))
+            # scripted scenario: a rename to a name that is taken is refused and changes nothing - neither for a registered user nor
+            # for a temporary one (whose generated name must stay unusable for a login)
+            t0, t1, t2, t3 = base + 40, base + 41, base + 42, base + 43
+            run.do(t0, ("register", "holder", "pwH")); run.do(t1, ("register", "mover", "pwM")); run.do(t1, ("login", "mover", "pwM"))
+            canon_u = lambda docs: sorted(json.dumps(d, sort_keys=True, default=repr) for d in docs["users"])
+            st_u, _ = run.do(t1, ("update", "holder", "pwStolen"))
+            _k, _r, bef, aft = run.snapshots[-1]
+            st_old, _ = run.do(t3, ("login", "mover", "pwM"))
+            st_new, _ = run.do(t3, ("login", "mover", "pwStolen"))
+            nreq += 6
+            if st_u == 200 or canon_u(bef) != canon_u(aft) or st_old != 200 or st_new == 200:
+                res.violations.append({"key": "credentials:refused-update-changes-account",
+                                       "what": "a rename to a name that is taken (answer %s) changed the account: login with the old password %s, with the password of the refused request %s" % (st_u, st_old, st_new),
+                                       "events": run.model_lines[-8:]})
+            run.do(t2, ("add", "tmpp", "s(own%d).ac(own%d,c(v))." % (t2, t2), "Naive"))       # creates a temporary user
+            st_i, body_i = run.do(t2, ("info",))
+            st_u2, _ = run.do(t2, ("update", "holder", "pwT"))
+            _k, _r, bef2, aft2 = run.snapshots[-1]
+            st_i2, body_i2 = run.do(t2, ("info",))
+            nreq += 4
+            try:
+                tmpname = json.loads(body_i)["username"]
+                still_temp = json.loads(body_i2).get("temp")
+            except (ValueError, KeyError, TypeError):
+                tmpname, still_temp = None, None
+            st_l = None
+            if tmpname:
+                st_l, _ = run.do(t3, ("login", tmpname, "pwT")); nreq += 1
+            if st_u2 == 200 or canon_u(bef2) != canon_u(aft2) or still_temp is not True or st_l == 200:
+                res.violations.append({"key": "credentials:refused-update-changes-account",
+                                       "what": "a temporary user's rename to a name that is taken (answer %s) changed the account: temp=%s afterwards, login to the generated name with the refused password answers %s" % (st_u2, still_temp, st_l),
+                                       "events": run.model_lines[-8:]})
             run.dump()
             # running tasks are part of what a user sees: while ANOTHER user's task for a problem of the same name runs
             # (a slow one: complete models of an odd attack cycle), this user's view of the own problem shows nothing running
